@@ -47,7 +47,8 @@ CONC_INV_WEAK = [i for i in CONC_INV if i not in ("EveryRecordWritten", "Returns
 
 def log_consts(levels, thr, batches, recs, maxh, maxlogs, maxgroups, steps, clip=True, emit_all=None,
                shapes="NoShapes", sizes="SizesNone", relogs=0, share=True, clone=True, rebind=False,
-               faults="NoFaults", maxfaults=0, defer_unlock=True, sticky=True, live=0, ticks=0, resolve=False):
+               faults="NoFaults", maxfaults=0, defer_unlock=True, sticky=True, live=0, ticks=0, resolve=False,
+               nwriters=1, maxtrees=1, registry=False, ctxs=(), ctxaware=False):
     tf = lambda b: "TRUE" if b else "FALSE"
     c = {"Levels": "<- " + levels, "Thresholds": "<- " + thr,
          "Batches": "{%s}" % ", ".join(map(str, batches)), "RecSizes": "{%s}" % ", ".join(map(str, recs)),
@@ -55,17 +56,20 @@ def log_consts(levels, thr, batches, recs, maxh, maxlogs, maxgroups, steps, clip
          "MaxH": maxh, "MaxLogs": maxlogs, "MaxRelogs": relogs, "MaxGroups": maxgroups, "MaxSteps": steps,
          "ClipOnDerive": tf(clip), "ShareOnCopy": tf(share), "CloneBeforeAdd": tf(clone), "RebindOnLarge": tf(rebind),
          "Faults": "<- " + faults, "MaxFaults": maxfaults, "DeferUnlock": tf(defer_unlock), "StickyError": tf(sticky),
-         "LiveKind": live, "MaxTicks": ticks, "ResolveOnDerive": tf(resolve)}
+         "LiveKind": live, "MaxTicks": ticks, "ResolveOnDerive": tf(resolve),
+         "NWriters": nwriters, "MaxTrees": maxtrees, "ShareByWriter": tf(registry),
+         "Ctxs": "{%s}" % ", ".join(map(str, ctxs)), "CtxAwareLock": tf(ctxaware)}
     if emit_all is not None:
         c["EmitAll"] = tf(emit_all)
     return c
 
 
-def conc_consts(gates, nbufs, big=None, rebind=False, fault=None, defer_unlock=True, sticky=True, **off):
+def conc_consts(gates, nbufs, big=None, rebind=False, fault=None, defer_unlock=True, sticky=True, ctx=None, ctxaware=False, **off):
     c = {"NGates": "<- " + gates, "BigRec": "<- " + (big or "Small%d" % nbufs), "NBufs": nbufs, "ResetOnGet": "TRUE",
          "PutAfterWrite": "TRUE", "WriteUnderLock": "TRUE", "SingleWrite": "TRUE",
          "RebindOnLarge": "TRUE" if rebind else "FALSE", "Fault": "<- " + (fault or "Ok%d" % nbufs),
-         "DeferUnlock": "TRUE" if defer_unlock else "FALSE", "StickyError": "TRUE" if sticky else "FALSE"}
+         "DeferUnlock": "TRUE" if defer_unlock else "FALSE", "StickyError": "TRUE" if sticky else "FALSE",
+         "Ctx": "<- " + (ctx or "Bg%d" % nbufs), "CtxAwareLock": "TRUE" if ctxaware else "FALSE"}
     for k in off:
         c[k] = "FALSE"
     return c
@@ -80,6 +84,7 @@ class Job:
         self.__dict__.update(locals())
         self.res = None
         self.dir = None
+        self.after = None
 
     def run(self, ctx, d, workers):
         self.dir = ctx.scratch / ("job_" + self.name)
@@ -94,6 +99,8 @@ class Job:
             raise CheckerError("%s: a deliberately wrong design must violate one of %s, TLC said violated=%s rc=%d\n%s"
                                % (self.name, self.wrong, self.res.violated, self.res.rc,
                                   "\n".join(self.res.out.splitlines()[-30:])))
+        if self.after:
+            self.after(self)   # e.g. replay what the generator wrote, while other TLC jobs still run
         return self
 
 
@@ -129,6 +136,8 @@ def run(ctx):
     ctx.assumptions += [
         "the io.Writer may fail any Write (error, short write with error, panic recovered by the caller); it does not return "
         "n < len without an error; LogValuer / ReplaceAttr code supplied by the caller does not panic",
+        "the context given to Handle may be live, cancelled or expired at any time; a process may create several independent "
+        "handler trees on the same or on different writers (trees sharing a writer are not driven concurrently)",
         "a record value may be handed to Handle any number of times (same handler, siblings, concurrently) without Clone; the "
         "caller does not modify it meanwhile",
         "attribute keys/values come from a fixed table (quotes, newlines, control bytes, invalid UTF-8, empty/odd keys, groups, "
@@ -200,7 +209,7 @@ def run(ctx):
                         invariants=REC_INV))
     # G: records handled again (same handler, a sibling, the parent) and records built by several AddAttrs calls
     if q:
-        c = log_consts("LevelsOne", "ThrInfo", [1, 2], [0], 3, 2, 0, 4, shapes="ShapesQuick", relogs=2, emit_all=False, live=2)
+        c = log_consts("LevelsOne", "ThrInfo", [1], [0], 3, 2, 0, 4, shapes="ShapesQuick", relogs=2, emit_all=False, live=2)
     else:
         c = log_consts("LevelsOne", "ThrInfo", [1], [0], 3, 2, 0, 5, shapes="ShapesQuick", relogs=2, emit_all=False, live=2)
     jobs.append(Job("gen-records", "HybridLogGen", "GSpec", c, invariants=["Emit", "LinesCorrect", "RecordStorageUntouched"]))
@@ -219,11 +228,33 @@ def run(ctx):
                     invariants=MC_INV + ["LiveValuesCurrent"]))
     for kind, maxh in ([(1, 3)] if q else [(1, 3), (2, 4)]):
         jobs.append(Job("gen-live-%d" % kind, "HybridLogGen", "GSpec",
-                        log_consts("LevelsOne", "ThrInfo", [1, 2], [0, 2], maxh, 2, 0, 5, live=kind, emit_all=False, **lv),
+                        log_consts("LevelsOne", "ThrInfo", [1, 2], [2] if q else [0, 2], maxh, 2, 0, 5, live=kind, emit_all=False, **lv),
                         invariants=["Emit", "LinesCorrect", "LiveValuesCurrent"]))
     jobs.append(Job("log-mc-resolve-on-derive", "HybridLogMC", "Spec",
                     log_consts("LevelsOne", "ThrInfo", [1, 2], [0, 2], 3, 2, 0, 4, live=1, resolve=True, **lv),
                     invariants=("LiveValuesCurrent",), wrong=("LiveValuesCurrent",)))
+    # Contexts (environment): the context given to Handle may be live, already cancelled or past its deadline; a record
+    # is not dropped because of that.  Independent trees (several NewJSONHybridHandler calls on the same or on different
+    # writers): what a tree does depends on its own history only - a Write error met by one tree does not concern a tree
+    # created later, on the same writer or not.  MC, then G with explicit steps (in all G jobs the harness also rotates
+    # through the context kinds call by call).
+    tr = dict(faults="FaultsAll", maxfaults=1, nwriters=2, relogs=1)
+    jobs.append(Job("log-mc-trees-ctx", "HybridLogMC", "Spec",
+                    log_consts("LevelsOne", "ThrInfo", [1], [1], 4, 3, 0, 5 if q else 6, maxtrees=2 if q else 3, ctxs=[1, 2, 3], **tr),
+                    invariants=REC_INV + ["NoCtxDrop"], timeout=3600))
+    jobs.append(Job("gen-trees2", "HybridLogGen", "GSpec",
+                    log_consts("LevelsOne", "ThrInfo", [1], [1], 4, 3, 0, 5, faults="FaultsErr" if q else "FaultsAll", maxfaults=1,
+                               nwriters=2, relogs=1, maxtrees=2, emit_all=False),
+                    invariants=["Emit", "LinesCorrect", "StaleOnlyAfterError", "NotWedged", "LinesAreTheGoodCalls"]))
+    jobs.append(Job("gen-ctx", "HybridLogGen", "GSpec",
+                    log_consts("LevelsOne", "ThrInfo", [1], [1], 2, 3, 0, 5, relogs=1, ctxs=[1, 2, 3], emit_all=False),
+                    invariants=["Emit", "LinesCorrect", "NoCtxDrop", "LinesAreTheGoodCalls"]))
+    jobs.append(Job("log-mc-writer-registry", "HybridLogMC", "Spec",
+                    log_consts("LevelsOne", "ThrInfo", [1], [1], 3, 2, 0, 4, maxtrees=2, registry=True, **tr),
+                    invariants=("StaleOnlyAfterError",), wrong=("StaleOnlyAfterError",)))
+    jobs.append(Job("log-mc-ctx-aware-lock", "HybridLogMC", "Spec",
+                    log_consts("LevelsOne", "ThrInfo", [1], [1], 2, 2, 0, 3, ctxs=[2, 3], ctxaware=True),
+                    invariants=("NoCtxDrop",), wrong=("NoCtxDrop",)))
     # Writer faults (environment): the next Write returns an error / writes short / panics (the caller recovers);
     # every later record must be handled as if nothing had happened.  MC, then G over the same actions.
     fl = dict(faults="FaultsAll", maxfaults=2, sizes="SizesLS", relogs=1)
@@ -231,16 +262,17 @@ def run(ctx):
     # Write error is the weaker one both a sticky and a non-sticky implementation meet)
     jobs.append(Job("log-mc-faults", "HybridLogMC", "Spec",
                     log_consts("LevelsOne", "ThrInfo", [1], [0, 1], 3, 4, 0, 5 if q else 6, **fl), invariants=REC_INV, timeout=3600))
-    jobs.append(Job("log-mc-faults-nonsticky", "HybridLogMC", "Spec",
-                    log_consts("LevelsOne", "ThrInfo", [1], [0, 1], 3, 4, 0, 5 if q else 6, sticky=False, **fl),
-                    invariants=REC_INV + ["NoStaleError"], timeout=3600, counts=False))
+    if not q:
+        jobs.append(Job("log-mc-faults-nonsticky", "HybridLogMC", "Spec",
+                        log_consts("LevelsOne", "ThrInfo", [1], [0, 1], 3, 4, 0, 6, sticky=False, **fl),
+                        invariants=REC_INV + ["NoStaleError"], timeout=3600, counts=False))
     jobs.append(Job("gen-faults", "HybridLogGen", "GSpec",
                     log_consts("LevelsOne", "ThrInfo", [1], [1], 3, 3, 0, 5 if q else 6, faults="FaultsAll", maxfaults=2,
                                relogs=1, emit_all=False),
                     invariants=["Emit", "LinesCorrect", "StaleOnlyAfterError", "NotWedged", "LinesAreTheGoodCalls"]))
     # G: mixed derive / log (all 7 levels) / WithGroup paths, all prefixes
     if q:
-        c = log_consts("LevelsAll", "ThrWarn", [0, 2], [1, 6], 3, 2, 1, 4, emit_all=True, live=1)
+        c = log_consts("LevelsAll", "ThrWarn", [0, 2], [6], 3, 2, 1, 4, emit_all=True, live=1)
     else:
         c = log_consts("LevelsAll", "ThrMC", [0, 2], [1, 6], 3, 2, 1, 4, emit_all=True, live=1)
     jobs.append(Job("gen-mixed", "HybridLogGen", "GSpec", c, invariants=["Emit", "AttrsImmutable", "LinesCorrect"]))
@@ -281,6 +313,18 @@ def run(ctx):
     for gates, np_, fault in faultlayouts:
         jobs.append(Job("conc-gen-%s-%s" % (gates, fault), "HybridConcGen", "GSpec", conc_consts(gates, np_, fault=fault),
                         invariants=["Emit", "OneWriter", "LinesCorrect", "ReturnsWeak", "LinesMatchReturns", "CleanAtEnd"]))
+    # ... and with contexts that are done before the call or cancelled while the call waits for the mutex
+    ctxlayouts = [("G111", 3, "C250"), ("G11", 2, "C20")] if q else [("G111", 3, "C250"), ("G11", 2, "C20"), ("G111", 3, "C055"), ("G011", 3, "C020")]
+    for gates, np_, cx in ctxlayouts:
+        jobs.append(Job("conc-gen-%s-%s" % (gates, cx), "HybridConcGen", "GSpec", conc_consts(gates, np_, ctx=cx),
+                        invariants=["Emit", "OneWriter", "LinesCorrect", "Returns", "EveryRecordWritten", "CleanAtEnd"]))
+    jobs.append(Job("conc-mc-3-ctx", "HybridConcMC", "Spec", conc_consts("G111", 3, ctx="C250" if q else "C055"),
+                    invariants=CONC_INV, properties=["Termination"], deadlock=True))
+    jobs.append(Job("conc-mc-ctx-aware-lock", "HybridConcMC", "Spec", conc_consts("G111", 3, ctx="C250", ctxaware=True),
+                    invariants=("Returns", "EveryRecordWritten"), wrong=("Returns", "EveryRecordWritten")))
+    if not q:
+        jobs.append(Job("conc-sim-G1111-C0502", "HybridConcGen", "GSpec", conc_consts("G1111", 4, ctx="C0502"),
+                        invariants=["Emit", "OneWriter", "LinesCorrect", "Returns", "CleanAtEnd"], simulate=2000, depth=200))
     for fault in (["F310"] if q else ["F310", "F030", "F020"]):
         jobs.append(Job("conc-mc-3-faults-" + fault, "HybridConcMC", "Spec", conc_consts("G111", 3, fault=fault),
                         invariants=CONC_INV_WEAK, properties=["Termination"], deadlock=True))
@@ -334,6 +378,29 @@ def run(ctx):
                                ("write-outside-lock", {"WriteUnderLock": 1}, ("OneWriter",)),
                                ("two-writes-outside-lock", {"WriteUnderLock": 1, "SingleWrite": 1}, obs + ("OneWriter",))):
         jobs.append(Job("conc-mc-" + name, "HybridConcMC", "Spec", conc_consts("G111", 3, **off), invariants=allowed, wrong=allowed))
+    # Replays start as soon as their generator has finished (the other TLC jobs go on meanwhile).
+    tree_sem, sched_sem = threading.Semaphore(2), threading.Semaphore(4)
+
+    def replay_paths(job):
+        plain_built.wait()
+        if "error" in bg:
+            return
+        with tree_sem:
+            ctx.vh(["c19", "replay-tree", job.dir / "hybrid_vectors.ndjson", ctx.scratch / ("tree_%s.res" % job.name)], timeout=3600)
+
+    def replay_schedules(job):
+        plain_built.wait()
+        if "error" in bg:
+            return
+        with sched_sem:
+            ctx.vh(["c19", "sched", job.dir / "hybrid_schedules.ndjson", ctx.scratch / ("sched_%s.res" % job.name),
+                    1 if job.name.startswith("conc-sim-") else 0], timeout=3600)
+
+    for j in jobs:
+        if j.name.startswith("gen-"):
+            j.after = replay_paths
+        elif j.name.startswith(("conc-gen-", "conc-sim-")):
+            j.after = replay_schedules
     run_jobs(ctx, d, jobs)
     byname = {j.name: j for j in jobs}
     ctx.extra["wrong_designs_tlc_finds"] = {j.name: j.res.violated for j in jobs if j.wrong}
@@ -345,35 +412,16 @@ def run(ctx):
     plain_built.wait()
     if "error" in bg:
         raise bg["error"]
-    sfiles = []
-    for kind, per in (("conc-gen-", 0), ("conc-sim-", 1)):
-        sf = ctx.scratch / (kind + "schedules.ndjson")
-        with open(sf, "wb") as out:
-            for j in jobs:
-                if j.name.startswith(kind):
-                    out.write((j.dir / "hybrid_schedules.ndjson").read_bytes())
-        if count_lines(sf):
-            sfiles.append((sf, ctx.scratch / (kind + "sched.res"), per))
-    sth = {}
-
-    def sched_replay(sf, rf, per):
-        try:
-            ctx.vh(["c19", "sched", sf, rf, per], timeout=3600)
-        except BaseException as e:
-            sth["error"] = e
-
-    sths = [threading.Thread(target=sched_replay, args=a, daemon=True) for a in sfiles]
-    for t in sths:
-        t.start()
+    sfiles = [(j.dir / "hybrid_schedules.ndjson", ctx.scratch / ("sched_%s.res" % j.name), 0)
+              for j in jobs if j.name.startswith(("conc-gen-", "conc-sim-"))]
     phase["tlc"] = round(time.time() - t0, 1)
     exhaustive_paths = 0
     gsum = {}
-    for name, exhaustive in [("gen-trees-" + t[0], True) for t in trees] + [("gen-records", True), ("gen-sizes", True), ("gen-faults", True)] + \
+    for name, exhaustive in [("gen-trees-" + t[0], True) for t in trees] + [("gen-records", True), ("gen-sizes", True), ("gen-faults", True), ("gen-trees2", True), ("gen-ctx", True)] + \
             [(j.name, True) for j in jobs if j.name.startswith("gen-live-")] + [("gen-mixed", True), ("gen-levels", True), ("gen-sim", False)]:
         path = byname[name].dir / "hybrid_vectors.ndjson"
         n = count_lines(path)
         rf = ctx.scratch / ("tree_%s.res" % name)
-        ctx.vh(["c19", "replay-tree", path, rf], timeout=3600)
         s = ctx.collect(rf)
         if s["replayed"] != n and not s.get("aborted_on_hang"):
             raise CheckerError("replay-tree %s: %d vectors generated, %d replayed" % (name, n, s["replayed"]))
@@ -394,10 +442,6 @@ def run(ctx):
         ctx.extra["withgroup_calls_that_returned"] = gsum["withgroup_supported"]
 
     phase["replay_paths"] = round(time.time() - t0, 1)
-    for t in sths:
-        t.join()
-    if "error" in sth:
-        raise sth["error"]
     ssum = {}
     for sf, rf, per in sfiles:
         s = ctx.collect(rf)
